@@ -3,7 +3,7 @@ From Coq Require Import List ZArith Bool.
 From LJT Require Import model.Huff model.Seq model.Prog model.Script model.ArithBin gen.GenNatOrder
   proofs.NatOrderProofs proofs.SeqBits proofs.SeqProofs proofs.ProgProofs proofs.ProgRefineProofs proofs.ScriptProofs
   proofs.ChainProofs proofs.ArithProofs proofs.ArithACProofs proofs.ArithQMProofs model.T81Arith
-  proofs.T81ArithProofsIdeal proofs.T81ArithProofsBytes proofs.ExampleCodec proofs.C03Examples gen.GenRestartClamp proofs.RestartProofs.
+  proofs.T81ArithProofsIdeal proofs.T81ArithProofsBytes proofs.ExampleCodec proofs.C03Examples gen.GenEntropyBytes proofs.EntropyBytesProofs gen.GenRestartClamp proofs.RestartProofs.
 Import ListNotations.
 Local Open Scope Z_scope.
 
@@ -31,6 +31,27 @@ Theorem C03_source_constants :
   gen_pdec_zrl_r = 15 /\ gen_pdec_zrl_skip = 15.
 Proof. exact source_constants. Qed.
 Print Assumptions C03_source_constants.
+
+(* the byte layer of the models (0xFF stuffing / unstuffing, 1-fill, FF RSTn) is that of jchuff.c,
+   jcphuff.c, jdhuff.c; the bin layout of the arithmetic binarisation is that of jcarith.c / jdarith.c *)
+Theorem C03_source_entropy_bytes :
+  stuff [gen_phuff_stuff_trigger] = [gen_phuff_stuff_trigger; gen_phuff_stuffed] /\
+  stuff [gen_chuff_stuff_trigger] = [gen_chuff_stuff_trigger; gen_chuff_stuffed] /\
+  stuff [gen_phuff_stuff_trigger - 1] = [gen_phuff_stuff_trigger - 1] /\
+  load_seg [gen_dhuff_stuff_trigger; gen_dhuff_stuffed; 7] = ([gen_dhuff_data; 7], []) /\
+  load_seg [gen_dhuff_stuff_trigger; gen_rst0; 7] = ([], [gen_dhuff_stuff_trigger; gen_rst0; 7]) /\
+  seg_bytes [false] = [gen_phuff_fill_code] /\ gen_phuff_fill_bits = 7 /\
+  byte_val (pad8 []) 0 = gen_chuff_fill_mask /\
+  enc_scan unit (fun _ => Some []) 1 [tt; tt] = Some [gen_phuff_marker_prefix; gen_rst0] /\
+  gen_chuff_marker_prefix = gen_phuff_marker_prefix /\
+  X1 = gen_arith_x1 /\
+  x_base gen_arith_default_K 5 = gen_arith_xlow /\ x_base gen_arith_default_K 6 = gen_arith_xhigh /\
+  (forall k, se_bin k = gen_arith_se_mult * (Z.of_nat k - gen_arith_se_sub)) /\
+  enc_mag_ac 0 100 2 = [(0, true); (0, true); (100, false); (100 + gen_arith_m_offset, false)] /\
+  snd (enc_magnitude 3 2) = 2 /\ gen_arith_mag_overflow = 32768 /\ gen_arith_dc_mask + 1 = 65536 /\
+  a_L acomp0 = gen_arith_default_L /\ a_U acomp0 = gen_arith_default_U /\ a_K acomp0 = gen_arith_default_K.
+Proof. exact source_entropy_bytes. Qed.
+Print Assumptions C03_source_entropy_bytes.
 
 (* ---- (3) magnitude coding: for EVERY nonzero v (no bound), the nbits|v| low bits of
    (v >= 0 ? v : v - 1) read back with GET_BITS and HUFF_EXTEND give v; the branch-free
